@@ -160,6 +160,9 @@ struct CaseResult {
   std::string sig;  // short signature of the failure (known-finding matching)
   bool nontrivial = false;
   uint64_t hash = 0;                  // identity for distinct counting
+  // Set for cases of an enumeration that never repeats a case: counted, not
+  // stored (millions of hashes would not fit a result file).
+  bool unique_by_construction = false;
   std::vector<std::string> classes;   // classification labels hit by the case
   std::string describe = "{}";        // JSON text describing the case
 
